@@ -251,9 +251,18 @@ impl SpillPoolSink {
 
         // Append the batch
         if let Some(ref mut writer) = file_shared.writer {
-            writer.append_batch(batch)?;
             // make sure we flush the writer for readers
-            writer.flush()?;
+            if let Err(e) = writer.append_batch(batch).and_then(|_| writer.flush()) {
+                // This file is neither returned to `open_write_files` nor rotated on
+                // this path, so no writer would ever finish it: finalize it here so the
+                // reader is not parked on it forever and can move on to later files.
+                if let Some(mut writer) = file_shared.writer.take() {
+                    let _ = writer.finish();
+                }
+                file_shared.writer_finished = true;
+                file_shared.wake();
+                return Err(e);
+            }
             file_shared.batches_written += 1;
             file_shared.estimated_size += batch_size;
         }
@@ -265,13 +274,16 @@ impl SpillPoolSink {
 
         if max_file_size_reached {
             // Finish the IPC writer
-            if let Some(mut writer) = file_shared.writer.take() {
-                writer.finish()?;
-            }
-            // Mark as finished so readers know not to wait for more data
+            let finish_result = match file_shared.writer.take() {
+                Some(mut writer) => writer.finish().map(|_| ()),
+                None => Ok(()),
+            };
+            // Mark as finished so readers know not to wait for more data (also when
+            // finishing the writer failed: nobody else will ever finish this file)
             file_shared.writer_finished = true;
             // Wake reader waiting on this file (it's now finished)
             file_shared.wake();
+            finish_result?;
 
             // Don't place `write_file` back in the `open_write_files` queue so we don't
             // try writing to it again
